@@ -180,6 +180,20 @@ impl<'a> Iterator for Lexer<'a> {
     type Item = Token<'a>;
 
     fn next(&mut self) -> Option<Token<'a>> {
+        // Invalid characters are reported and skipped. This is a loop rather than
+        // recursion so that a long run of invalid characters cannot overflow the stack.
+        loop {
+            let mut skipped_invalid_char = false;
+            let token = self.next_impl(&mut skipped_invalid_char);
+            if !skipped_invalid_char {
+                return token;
+            }
+        }
+    }
+}
+
+impl<'a> Lexer<'a> {
+    fn next_impl(&mut self, skipped_invalid_char: &mut bool) -> Option<Token<'a>> {
         // Consume whitespace and comments
         let mut comment_start: Option<usize> = None;
         while let Some(c) = self.s[self.l..self.u].chars().next() {
@@ -283,38 +297,47 @@ impl<'a> Iterator for Lexer<'a> {
                                 '0' => '\0',
                                 'r' => '\r',
                                 'u' => {
-                                    if iter.next() != Some('{') {
-                                        // TODO error
-                                        continue;
-                                    }
-                                    self.l += '{'.len_utf8();
-                                    let mut i = 0;
-                                    let mut valid = true;
-                                    loop {
-                                        let Some(n) = iter.next() else {
-                                            // TODO: error in this case?
-                                            return None;
-                                        };
-                                        self.l += n.len_utf8();
-                                        if n == '}' {
-                                            // TODO: error if no number was provided.
-                                            break;
-                                        }
-                                        match n.to_digit(16) {
-                                            None => {
-                                                valid = false;
+                                    // A unicode escape is `\u{` followed by hexadecimal digits
+                                    // and `}`. Characters that do not fit this pattern are not
+                                    // consumed here: they are ordinary characters of the string
+                                    // (in particular `"` and `\`), exactly as the bracket
+                                    // matching pass in `Lexer::build` sees them.
+                                    let escape_start = self.l - 2;
+                                    let mut i: Option<u32> = Some(0);
+                                    let mut terminated = false;
+                                    if iter.clone().next() == Some('{') {
+                                        iter.next();
+                                        self.l += '{'.len_utf8();
+                                        while let Some(n) = iter.clone().next() {
+                                            if n == '}' {
+                                                // TODO: error if no number was provided.
+                                                iter.next();
+                                                self.l += n.len_utf8();
+                                                terminated = true;
+                                                break;
                                             }
-                                            Some(d) => {
-                                                i = i * 16 + d;
-                                            }
+                                            let Some(d) = n.to_digit(16) else {
+                                                break;
+                                            };
+                                            iter.next();
+                                            self.l += n.len_utf8();
+                                            // A value that overflows is too large to be a character.
+                                            i = i.and_then(|i| i.checked_mul(16)?.checked_add(d));
                                         }
                                     }
-                                    if !valid {
-                                        // TODO: error
-                                        continue;
-                                    }
-                                    let Some(c) = char::from_u32(i) else {
-                                        // TODO: error
+                                    let c = if terminated {
+                                        i.and_then(char::from_u32)
+                                    } else {
+                                        None
+                                    };
+                                    let Some(c) = c else {
+                                        self.errs.add(Error::UnknownEscapeSequence {
+                                            sequence: Str {
+                                                value: self.s,
+                                                start: escape_start,
+                                                end: self.l,
+                                            },
+                                        });
                                         continue;
                                     };
                                     c
@@ -357,7 +380,8 @@ impl<'a> Iterator for Lexer<'a> {
                         end: self.l,
                     },
                 });
-                return self.next();
+                *skipped_invalid_char = true;
+                return None;
             }
         };
         Some(Token {
@@ -380,6 +404,7 @@ impl<'a> Lexer<'a> {
     ) -> TokenValue<'a> {
         let mut iter = self.s[self.l..self.u].chars();
         let mut n = initial_value;
+        let mut n_overflowed = false;
         let mut parsing_n = true;
         let mut d = [0_u8; 17];
         let mut next_d = 0_usize;
@@ -388,8 +413,10 @@ impl<'a> Lexer<'a> {
                 Some(c @ '0'..='9') => {
                     let i = (c as i32) - ('0' as i32);
                     if parsing_n {
-                        n = n.checked_mul(10).unwrap();
-                        n = n.checked_add(i).unwrap();
+                        match n.checked_mul(10).and_then(|n| n.checked_add(i)) {
+                            Some(v) => n = v,
+                            None => n_overflowed = true,
+                        }
                     } else {
                         if let Some(d) = d.get_mut(next_d) {
                             *d = i.try_into().expect("i in [0,9]")
@@ -418,21 +445,43 @@ impl<'a> Lexer<'a> {
                         self.l += n.len_utf8();
                     }
 
-                    let mut s = common::Scaled::from_decimal_digits(&d) + common::Scaled::ONE * n;
-                    if negative {
-                        s.0 *= -1;
+                    let out_of_range = |lexer: &Self| {
+                        lexer.errs.add(Error::NumberOutOfRange {
+                            number: Str {
+                                value: lexer.s,
+                                start: start_idx,
+                                end: lexer.l,
+                            },
+                        });
+                        TokenValue::Scaled(common::Scaled::ZERO)
+                    };
+                    if n_overflowed {
+                        return out_of_range(self);
                     }
                     let raw_unit = &self.s[u..self.l];
                     if let Some(unit) = common::ScaledUnit::parse(raw_unit) {
-                        let mut s =
+                        let Ok(mut s) =
                             common::Scaled::new(n, common::Scaled::from_decimal_digits(&d), unit)
-                                .unwrap();
+                        else {
+                            return out_of_range(self);
+                        };
                         if negative {
                             s = -s;
                         }
                         return TokenValue::Scaled(s);
                     }
                     if let Some(glue_order) = common::GlueOrder::parse(raw_unit) {
+                        let Some(mut s) = common::Scaled::ONE
+                            .0
+                            .checked_mul(n)
+                            .and_then(|v| v.checked_add(common::Scaled::from_decimal_digits(&d).0))
+                            .map(common::Scaled)
+                        else {
+                            return out_of_range(self);
+                        };
+                        if negative {
+                            s = -s;
+                        }
                         return TokenValue::InfiniteGlue(s, glue_order);
                     }
                     self.errs.add(Error::InvalidDimensionUnit {
@@ -459,6 +508,16 @@ impl<'a> Lexer<'a> {
                             },
                         });
                         return TokenValue::Scaled(common::Scaled::ZERO);
+                    }
+                    if n_overflowed {
+                        self.errs.add(Error::NumberOutOfRange {
+                            number: Str {
+                                value: self.s,
+                                start: start_idx,
+                                end: self.l,
+                            },
+                        });
+                        return TokenValue::Integer(0);
                     }
                     if negative {
                         n *= -1;
